@@ -45,6 +45,9 @@ type descriptor struct {
 	Attempts []attempt `json:"attempts"` // per request of A (last repeats)
 	Second   []attempt `json:"second"`   // histories for the downstream task (error modes there too)
 	Perturb  uint64    `json:"perturb"`  // schedule perturbation seed (0 = off)
+	// DeadEnd: the activity has NO outgoing sequence flow (implicit end of the
+	// token, legal BPMN): the answer must still be stored / reported / retried
+	DeadEnd bool `json:"deadEnd,omitempty"`
 }
 
 type built struct {
@@ -63,9 +66,13 @@ func build(d descriptor) *built {
 		a.DataOutputs = []string{"out"}
 	}
 	b.Connect(st, a)
+	bt := &built{A: a.ID}
+	if d.DeadEnd {
+		bt.prog = &gen.Program{G: b.G, DefaultLang: "expr"}
+		return bt
+	}
 	x := b.Add(gen.KXor)
 	b.Connect(a, x)
-	bt := &built{A: a.ID}
 	for i := 0; i < 3; i++ {
 		t := b.Add(gen.KTask)
 		en := b.Add(gen.KEnd)
@@ -336,7 +343,7 @@ func runCase(d descriptor) *result {
 			switch {
 			case nx == "again":
 				wantIDs = []string{bt.A}
-			case strings.HasPrefix(nx, "branch:"):
+			case strings.HasPrefix(nx, "branch:") && !d.DeadEnd:
 				wantIDs = []string{strings.TrimPrefix(nx, "branch:")}
 			}
 			if reflect.DeepEqual(gotIDs, wantIDs) && reflect.DeepEqual(gotVars, ns.vars) && errCount == ns.errors && reflect.DeepEqual(gotObjs, ns.objs) {
@@ -378,7 +385,7 @@ func runCase(d descriptor) *result {
 		}
 	}
 	// downstream task: answer it (possibly with error modes) and expect completion
-	if strings.HasPrefix(next, "branch:") {
+	if strings.HasPrefix(next, "branch:") && !d.DeadEnd {
 		id := strings.TrimPrefix(next, "branch:")
 		_ = id
 		// the downstream request was returned by NewTasks in the loop; fetch via traces
@@ -512,7 +519,11 @@ func drawDescriptor(rt *rapid.T) descriptor {
 		}
 	}
 	d.Perturb = uint64(rapid.IntRange(0, 1000).Draw(rt, "perturb"))
+	d.DeadEnd = rapid.IntRange(0, 4).Draw(rt, "deadEnd") == 0
 	ns := rapid.IntRange(0, 2).Draw(rt, "secondAttempts")
+	if d.DeadEnd {
+		ns = 0
+	}
 	for i := 0; i < ns; i++ {
 		c := drawCall(rt, true)
 		d.Second = append(d.Second, attempt{Calls: []doCall{c}})
@@ -584,6 +595,9 @@ func TestC08Histories(t *testing.T) {
 		}
 		if len(d.Declared) < 2 {
 			cls = append(cls, "partlyUndeclared")
+		}
+		if d.DeadEnd {
+			cls = append(cls, "noOutgoingFlow")
 		}
 		rec.Case("TestC08Histories", hash, nontrivial(d), cls, map[string]any{"case": d, "history": r.History})
 		if r.Symptom == "" {
